@@ -154,7 +154,7 @@ class SolverWorld(GraphWorld):
         g = self.cw.genv
         g["Op"] = Tag("Op")
         g["config"] = self.config
-        g["flatten_iterator"] = self.flatten
+        # flatten_iterator: the repository's own generator function, evaluated from source
         g["warnings"] = Tag("warnings")
         g["warnings.warn"] = lambda *a, **k: None
         for n in ("count_true", "fold_or", "fold_and", "alldifferent", "cond", "then"):
